@@ -1,12 +1,21 @@
 /-
   C05 — Block structure is rendered: one statement per line at its nesting depth.
-  Proved: how counters are rendered (exact reconstructor) and how the line builder assigns levels.
+  Proved: how counters are rendered (exact reconstructor) and how the line builder assigns levels; and the link from a
+  line's level to the counters of its first token THROUGH THE SEARCH of the optimising line formatter (for every input:
+  Proofs/SearchFirstToken.lean): the solution `format_line` returns starts with "`level` indentations, no
+  continuation" and a first decision "break, no continuation", so the first token of every top-level line the wrapper
+  stage finds a solution for is rendered first on its own line after exactly `level` indentation units.  For child
+  lines (Proofs/SearchChildLines.lean): every child solution, at every depth, computed or taken from the
+  `child_line_cache`, starts with the whitespace derived from its parent solution's starting whitespace, its own line's
+  level and the `ChildLineOption` chosen for it (`TreeOk`).
   That the parser opens a `+1` context for exactly the listed bodies and finishes a line at every
   statement boundary is grammar knowledge of its control flow: checked by the generator-marked
   structure oracle on every case (level "other", partial).
 -/
 import PasfmtModel.Props.C08
 import PasfmtModel.Model.Parser
+import PasfmtModel.Proofs.SearchFirstToken
+import PasfmtModel.Proofs.SearchChildLines
 
 namespace Pasfmt.C05
 
@@ -25,5 +34,121 @@ theorem first_token_rendering (S : Settings) (t : FTok) (mb : Bool) (level k : N
     rw [hz]; simp [h1]
   simp only [Bool.false_eq_true, if_false, hnl, h2, h3, h4]
   simp [replicateBytes]
+
+/-- `format_line` (the model of the best-first search, every input): whatever the search explores - heap order, caches,
+    child lines - the solution it returns carries the starting whitespace it was started with: `level` indentations of
+    the line and no continuation -/
+theorem format_line_starting_ws (O : Olf) (cache cache' : ChildLineCache) (lineIdx : Nat) (line : LineA)
+    (sol : FormattingSolution) (hl : O.lines[lineIdx]? = some line)
+    (h : O.formatLine cache lineIdx = (some sol, cache')) :
+    sol.startingWs = { indentations := line.level, continuations := 0 } :=
+  Pasfmt.format_line_starting_ws O cache cache' lineIdx line sol hl h
+
+/-- `format_line`: the first decision of the returned solution is a break with no continuation - except for a line that
+    must not be broken off the token before it (`get_formatting_invariant` says "must not break" at its first token),
+    where it is "continue" -/
+theorem format_line_first_decision (O : Olf) (cache cache' : ChildLineCache) (lineIdx : Nat) (line : LineA)
+    (sol : FormattingSolution) (t0 : Nat) (hl : O.lines[lineIdx]? = some line) (ht : line.tokens[0]? = some t0)
+    (h : O.formatLine cache lineIdx = (some sol, cache')) :
+    (sol.decisions.head?).map (·.decision) =
+      some (if O.getFormattingInvariant 0 line = some .mustNotBreak then Dec.cont else Dec.brk 0) :=
+  Pasfmt.format_line_first_decision O cache cache' lineIdx line sol t0 hl ht h
+
+/-- which lines those are: the line starting with token 0 of the file, a line whose first token has no token before
+    it in the token list (never for the tokens of a file), and a line starting with a comment that shares its line
+    with code -/
+theorem must_not_break_at_line_start (O : Olf) (line : LineA) (t0 : Nat) (ht : line.tokens[0]? = some t0) :
+    O.getFormattingInvariant 0 line = some .mustNotBreak ↔
+      (t0 = 0 ∨ O.formattedTokens[t0 - 1]? = none ∨
+        ∃ t, O.formattedTokens[t0]? = some t ∧ (t.kind = .tComment .cInlineLine ∨ t.kind = .tComment .cInlineBlock)) :=
+  invariant_zero_mustNotBreak_iff O line t0 ht
+
+/-- one line, search and reconstruction: when the search finds a solution for top-level line `i` and the solution is
+    applied, the first token `t0` of the line (not token 0 of the file, not a comment sharing its line with code)
+    gets one line break (two if a blank line preceded it), `level` indentations and no continuation; side condition:
+    no child line of the solution writes `t0` again -/
+theorem searchSolve_first_token (lines : List Line) (st st' : SearchState) (ft ft1 : FT) (i : Nat) (s : Sol)
+    (l : Line) (t0 : Nat)
+    (hst : st.lines = (lines.map Line.toA).toArray)
+    (hl : lines[i]? = some l) (ht : l.tokens[0]? = some t0) (h0 : t0 ≠ 0)
+    (hs : searchSolve st ft i = (some s, st'))
+    (ha : applySol lines ft s i = some ft1)
+    (hone : (solTokens lines s i).count t0 = 1) :
+    ∃ t, ft[t0]? = some t ∧
+      (¬ startsWithInlineComment t.tok.kind →
+        ft1[t0]? = some { t with fmt := { t.fmt with nl := nlc t.fmt.nl, ind := l.level, cont := 0 } }) :=
+  Pasfmt.searchSolve_first_token lines st st' ft ft1 i s l t0 hst hl ht h0 hs ha hone
+
+/-- the whole wrapper stage with the search inside (first wrapping, string pass, re-wrapping, second string pass,
+    removal of spaces at line starts): the first token of every top-level line the stage applied a solution for
+    leaves the stage with "one or two line breaks, `level` indentations, no continuation, no spaces" -/
+theorem wrapStageFull_first_token (cfg : Config) (lines : List Line) (ft ftz : FT) (sols : List (Nat × Nat × Sol))
+    (i : Nat) (l : Line) (t0 : Nat)
+    (h : wrapStageFull cfg lines ft = some (ftz, sols))
+    (hl : lines[i]? = some l) (ht : l.tokens[0]? = some t0) (h0 : t0 ≠ 0)
+    (hk : ∀ k, kindAt ft t0 = some k → ¬ startsWithInlineComment k)
+    (hsolved : ∃ x ∈ sols, x.2.1 = i)
+    (hW : WrittenOnlyAsFirst lines i t0 sols) :
+    ∃ t, ftz[t0]? = some t ∧ LineStart l.level t.fmt ∧ t.fmt.sp = 0 :=
+  Pasfmt.wrapStageFull_first_token cfg lines ft ftz sols i l t0 h hl ht h0 hk hsolved hW
+
+/-- C05 for top-level logical lines, from the parser's level to the output bytes: the first token of every top-level
+    line the wrapper stage (search included) applied a solution for is emitted first on its own line, preceded by one
+    or two line endings and exactly `level` indentation units (for a token that is not kept verbatim) -/
+theorem line_start_rendering (cfg : Config) (S : Settings) (lines : List Line) (ft ftz : FT)
+    (sols : List (Nat × Nat × Sol)) (i : Nat) (l : Line) (t0 : Nat) (mb : Bool)
+    (h : wrapStageFull cfg lines ft = some (ftz, sols))
+    (hl : lines[i]? = some l) (ht : l.tokens[0]? = some t0) (h0 : t0 ≠ 0)
+    (hk : ∀ k, kindAt ft t0 = some k → ¬ startsWithInlineComment k)
+    (hsolved : ∃ x ∈ sols, x.2.1 = i)
+    (hW : WrittenOnlyAsFirst lines i t0 sols) :
+    ∃ t, ftz[t0]? = some t ∧ (t.fmt.ignored = false →
+      ∃ k, (k = 1 ∨ k = 2) ∧ gapOf S t mb = replicateBytes k S.nlStr ++ replicateBytes l.level S.indStr) := by
+  obtain ⟨t, h1, ⟨hn, hi, hc⟩, hs⟩ := wrapStageFull_first_token cfg lines ft ftz sols i l t0 h hl ht h0 hk hsolved hW
+  exact ⟨t, h1, fun hig => ⟨t.fmt.nl, hn, first_token_rendering S t mb l.level t.fmt.nl hig hn ⟨rfl, hi, hc, hs⟩⟩⟩
+
+/-- `format_line`, child lines: started with a well-formed `child_line_cache` (`CacheOk`; the empty cache is), it leaves
+    a well-formed cache, and in the tree of the solution it returns every child solution is well placed (`TreeOk`, read
+    with `TreeOk.child` and `child_starting_ws`): the `p`-th child solution hanging off a decision belongs to one
+    `ChildLineOption` whose whitespace comes from the parent solution's starting whitespace `W` - none at all for
+    `ContinueAll`; otherwise `W`'s indentations, at least `W`'s continuations, de-indented by at most one level - and
+    starts with that whitespace plus its own line's level; its first decision is "break, no continuation" (unless the
+    line must not be broken off its predecessor) for `BreakAll` and for all but the first child of `ContinueThenBreak`,
+    "continue" otherwise -/
+theorem format_line_children (O : Olf) (cache : ChildLineCache) (lineIdx : Nat) (hc : CacheOk O cache) :
+    CacheOk O (O.formatLine cache lineIdx).2 ∧ ∀ sol, (O.formatLine cache lineIdx).1 = some sol → TreeOk O sol :=
+  Pasfmt.format_line_children O cache lineIdx hc
+
+/-- the whole wrapper stage: every solution it applies (first wrapping and re-wrapping; the cache lives as long as the
+    stage) is the image of a search solution that starts with its line's level and no continuation and whose child
+    solutions are all well placed -/
+theorem wrapStageFull_children (cfg : Config) (lines : List Line) (ft ftz : FT) (sols : List (Nat × Nat × Sol))
+    (h : wrapStageFull cfg lines ft = some (ftz, sols)) :
+    ∀ x ∈ sols, SolOk (stageOlf (searchInit cfg lines ft) ft) x :=
+  Pasfmt.wrapStageFull_children cfg lines ft ftz sols h
+
+/-- `begin_style = always_wrap`, at the point where the search decides it (partial: see
+    `Pasfmt.begin_always_wrap_partial`): for child lines hanging off `else`, `then`, `do` or the colon of a case arm
+    whose first line starts with `begin`, all child solutions the search considers break before `begin` and put it at
+    the parent line's indentation -/
+theorem begin_always_wrap_partial (O : Olf) (solve : Solver) (hK : SolverKey O solve) (hT : SolverOk O solve)
+    (cache : ChildLineCache) (line : Nat × LineA) (nli : Nat) (W : LineWhitespace) (decision : DecisionRef)
+    (stack : SpecificContextStack) (node : FormattingNode) (tll pc : Nat) (hc : CacheOk O cache)
+    (hbb : O.breakBeforeBegin = true) (lineChildren : LineChildren)
+    (hlc : O.lineChildren.get? (line.1, line.2.tokens[nli]!) = some lineChildren)
+    (hpt : O.getTokenType lineChildren.parentToken = some (.tKeyword .kElse) ∨
+      O.getTokenType lineChildren.parentToken = some (.tKeyword .kThen) ∨
+      O.getTokenType lineChildren.parentToken = some (.tKeyword .kDo) ∨
+      O.getTokenType lineChildren.parentToken = some (.tOp .oColon))
+    (hfirst : firstChildTokenType O lineChildren = some (.tKeyword .kBegin)) :
+    ∀ sols ∈ (O.findOptimalChildLinesSolution solve cache line nli W decision stack node tll pc).1.toList,
+      ChildListOk O (.breakAll { whitespace := W, deindent := 1 }) sols ∧
+      ∀ x, sols[0]? = some x →
+        x.2.startingWs = { indentations := W.indentations + (O.lines[x.1]!).level - 1,
+                           continuations := W.continuations } ∧
+        ((O.lines[x.1]!).tokens[0]?.isSome →
+          (x.2.decisions.head?).map (·.decision) = some (rootDec O (O.lines[x.1]!) .brk)) :=
+  Pasfmt.begin_always_wrap_partial O solve hK hT cache line nli W decision stack node tll pc hc hbb lineChildren hlc
+    hpt hfirst
 
 end Pasfmt.C05
